@@ -18,14 +18,17 @@ class Path:
         self.state, self.env, self.facts = dict(state), dict(env), facts
         self.events = []        # (kind, payload, node, facts snapshot, state snapshot)
         self.done = False
+        self.ret = None
 
 
 class LSE:
-    def __init__(self, cx, tracked, entry_facts):
-        """tracked: canonical lvalue string -> symbol name; entry_facts: Facts over those symbols."""
+    def __init__(self, cx, tracked, entry_facts, params=None):
+        """tracked: canonical lvalue string -> symbol name; entry_facts: Facts over those symbols;
+        params: parameter name -> symbol name (integer parameters read as symbols)."""
         self.cx = cx
         self.tracked = tracked
         self.entry = entry_facts
+        self.params = params or {}
         self.on_store = None      # callback(path, lvalue canon, index Poly or None, node)
 
     def run(self, stmts):
@@ -60,6 +63,8 @@ class LSE:
         if k == "DeclRefExpr":
             if n["ref"]["id"] in p.env:
                 return p.env[n["ref"]["id"]]
+            if n["ref"].get("kind") == "ParmVarDecl" and n["ref"].get("name") in self.params:
+                return Poly.sym(self.params[n["ref"]["name"]])
             if n["ref"].get("kind") == "EnumConstantDecl":
                 return None
             d = self.cx.single_def(n["ref"]["id"])
@@ -165,8 +170,39 @@ class LSE:
         return None
 
     # -- statements ------------------------------------------------------------
+    def _find_ternary(self, s):
+        """the first ConditionalOperator evaluated in an expression statement / declaration / return (no nesting)"""
+        for y in walk(s):
+            if y["kind"] == "ConditionalOperator":
+                return y
+        return None
+
     def stmt(self, s, p):
         k = s["kind"]
+        if k in ("DeclStmt", "BinaryOperator", "ReturnStmt", "CStyleCastExpr", "ParenExpr"):
+            t = self._find_ternary(s)
+            if t is not None and not any(x["kind"] == "CallExpr" and any(z is t for z in walk(x)) for x in walk(s)):
+                out = []
+                import copy as _copy
+                for positive, pick in ((True, 1), (False, 2)):
+                    q = Path(p.state, p.env, p.facts)
+                    q.events = list(p.events)
+                    alts = self.cond(kids(t)[0], q, positive) or [q.facts]
+                    for f in alts:
+                        if not f.feasible():
+                            continue
+                        r = Path(q.state, q.env, f)
+                        r.events = list(q.events)
+                        s2 = _copy.deepcopy(s)
+                        for x in walk(s2):
+                            ch = x.get("inner") or []
+                            for i, c in enumerate(ch):
+                                if c["kind"] == "ConditionalOperator" and render(c) == render(t):
+                                    ch[i] = kids(c)[pick]
+                        if s2["kind"] == "ConditionalOperator":
+                            s2 = kids(s2)[pick]
+                        out.extend(self.stmt(s2, r))
+                return out
         if k == "CompoundStmt":
             paths = [p]
             for c in kids(s):
@@ -200,7 +236,7 @@ class LSE:
             return out
         if k == "ReturnStmt":
             if kids(s):
-                self.ev(kids(s)[0], p)
+                p.ret = self.ev(kids(s)[0], p)
             p.done = True
             return [p]
         if k in ("ForStmt", "WhileStmt"):
